@@ -46,6 +46,9 @@ type Scen struct {
 	PluginErr bool      `json:"pluginErr"`
 	Crit      string    `json:"crit"`     // none processed unprocessed
 	CritInt   bool      `json:"critInt"`  // COSE integer-keyed critical attribute
+	// CritKeyKind: "" an unrelated key; "header-prefix" a key that merely STARTS like one of
+	// notation's own verification-plugin headers (it is still somebody else's attribute)
+	CritKeyKind string `json:"critKeyKind,omitempty"`
 	CapOrder  int       `json:"capOrder"` // order in which the plugin declares its capabilities
 	// Filler: NON-critical extended attributes placed before / after the others; they never
 	// decide anything, whether or not the plugin lists them as processed (finding F17)
@@ -70,12 +73,23 @@ type Warm struct {
 }
 
 func (s *Scen) fp() uint64 {
-	return stats.Fingerprint(s.Level.Key(), s.Level.String(), s.Scheme, s.Format, s.Trust, s.Identity, s.Expiry, s.CertTime, s.Rev, s.Plugin, s.MinVer, s.TIVerdict, s.RVVerdict, s.PluginErr, s.Crit, s.CritInt, s.CapOrder, s.Filler, s.FillerProcessed, s.BlobTwin, fmt.Sprintf("%+v", s.Warm))
+	return stats.Fingerprint(s.Level.Key(), s.Level.String(), s.Scheme, s.Format, s.Trust, s.Identity, s.Expiry, s.CertTime, s.Rev, s.Plugin, s.MinVer, s.TIVerdict, s.RVVerdict, s.PluginErr, s.Crit, s.CritInt, s.CritKeyKind, s.CapOrder, s.Filler, s.FillerProcessed, s.BlobTwin, fmt.Sprintf("%+v", s.Warm))
 }
 
 const pluginName = "verif-plugin"
 const pluginVersion = "1.5.0"
 const critKey = "com.example.verif.critical"
+
+// critKeyOf is the (string) key of the scenario's extra critical attribute.
+func critKeyOf(s *Scen) string {
+	switch s.CritKeyKind {
+	case "header-prefix":
+		return envb.AttrPlugin + "Config"
+	case "minver-prefix":
+		return envb.AttrPluginMinVer + ".next"
+	}
+	return critKey
+}
 const critIntKey = int64(-70001)
 const fillerKey = "com.example.verif.optional"
 
@@ -250,7 +264,7 @@ func realise(s *Scen) (*run, error) {
 		if s.CritInt {
 			spec.Ext = append(spec.Ext, envb.Attr{Key: critIntKey, Critical: true, Value: "v"})
 		} else {
-			spec.Ext = append(spec.Ext, envb.Attr{Key: critKey, Critical: true, Value: "v"})
+			spec.Ext = append(spec.Ext, envb.Attr{Key: critKeyOf(s), Critical: true, Value: "v"})
 		}
 	}
 	if s.Filler == "after" || s.Filler == "both" {
@@ -290,7 +304,7 @@ func realise(s *Scen) (*run, error) {
 		if s.CritInt {
 			plug.Processed = []any{critIntKey}
 		} else {
-			plug.Processed = []any{critKey}
+			plug.Processed = []any{critKeyOf(s)}
 		}
 	}
 	if s.Filler != "" && s.FillerProcessed {
@@ -530,6 +544,9 @@ func classes(s *Scen, v verdict) []string {
 	if s.CritInt && s.Crit != "none" {
 		cl = append(cl, "crit-int-key")
 	}
+	if s.CritKeyKind != "" && s.Crit != "none" {
+		cl = append(cl, "crit-key-extends-plugin-header-name")
+	}
 	if s.Warm != nil {
 		cl = append(cl, "reused-verifier")
 	}
@@ -615,6 +632,9 @@ func drawScen(rt *rapid.T) *Scen {
 	}
 	if s.Crit != "none" && s.Format == envb.MTCOSE {
 		s.CritInt = rapid.IntRange(0, 2).Draw(rt, "critIntKey") == 0
+	}
+	if s.Crit != "none" && !s.CritInt {
+		s.CritKeyKind = rp.Pick(rt, "critKeyKind", "", "", "header-prefix", "minver-prefix")
 	}
 	s.Filler = rp.Pick(rt, "filler", "", "", "", "before", "after", "both")
 	s.BlobTwin = rp.Pick(rt, "blobTwin", "", "", "", "", "strict", "permissive", "audit", "skip")
